@@ -28,3 +28,8 @@ chk("C07", "exploration",
     "the base run is the reference; snooze times are decades from the clock; name(prom)/name(+tag) spellings only for checks whose identity is name(prom); placements restricted to those that attach to the rule by YAML's rules",
     "relational (metamorphic) monitor over H1 report dumps of pint child processes",
     "DESIGN.md §3 C07")
+chk("C10", "exploration",
+    "non-interference monitor: bounded-exhaustive sequences (<=3 quick / <=4 thorough lines over a 14-token alphabet incl. all five ignore forms, nesting and adjacency) inserted at every gap (short sequences) of two base files; every excluded line / prefix, as computed by an opaque reference reader, is replaced by other tokens and hostile payloads; parser.Parse of both variants must agree on rules, values, positions, comments, diagnostics and errors; a sample also goes through the pint binary (H1 report multisets). Same-length and different-length replacements are told apart.",
+    "the reference exclusion model is written from the documentation; replacements never introduce ignore/end inside a block; the length leak (bytes overwritten by spaces) is a listed known finding",
+    "relational two-run (non-interference) monitor over in-process parser executions and pint child processes",
+    "DESIGN.md §3 C10")
